@@ -94,7 +94,7 @@ fn pctx() -> BoxedStrategy<Ctx> {
 
 /// contexts in which the outcome of every template is specified (no dependence on the iteration order of maps):
 /// decided with the reference interpreter, which is used here as a filter only, not as an oracle
-fn specified_contexts(tpls: &[(&str, &Vec<S>)], ctxs: &[Ctx], l: &mut Local) -> Vec<Ctx> {
+pub fn specified_contexts(tpls: &[(&str, &Vec<S>)], ctxs: &[Ctx], l: &mut Local) -> Vec<Ctx> {
     let mut map = std::collections::BTreeMap::new();
     for (n, b) in tpls {
         map.insert(n.to_string(), Tpl { body: (*b).clone(), autoescape: n.ends_with(".html"), ..Default::default() });
